@@ -543,6 +543,16 @@ def b_set(ip, args, kw, ctx):
     if isinstance(src, SymEnumList):
         return src.as_set(ctx)
     items = ip.iterate(src, ctx)
+    if any(isinstance(x, SymEnum) for x in items) and len(items) <= 3:
+        # short sequences: decide each member by a path fork (at most 7^3 paths) and build the concrete set
+        out = set()
+        for x in items:
+            if isinstance(x, SymEnum):
+                k = ctx.choose([zi(x.idx) == i for i in range(len(x.members))])
+                out.add(x.members[k])
+            else:
+                out.add(ip.concrete_key(x, ctx))
+        return PySet(out)
     if any(isinstance(x, SymEnum) for x in items):
         # number of distinct members
         ctx.used_models.add("set() of enum members: cardinality = number of distinct members")
